@@ -26,7 +26,7 @@ PROPERTY = 'C20'
 LEVEL = 'exploration'
 LEVEL_TEXT = ('Real Envelope.parse/flatten/copy/pickle/encode_7bit run on seeded generated messages of exactly the '
               'input class of the property (1..7 well-formed fields, folded continuation lines with non-blank content, '
-              '8-bit values, duplicate names, lines <= 78 bytes incl. lines of exactly 78, CRLF or LF, arbitrary '
+              '8-bit values incl. U+0085/U+2028/U+2029/Unicode-space/BOM and lone 0x85/0xA0 bytes, duplicate names, lines <= 78 bytes incl. lines of exactly 78, CRLF or LF, arbitrary '
               'body bytes), on arbitrary byte strings for the no-raise claim, and on single-part UTF-8 text/plain '
               'messages for the 7-bit clause; every message is compared with what the generator built, through an '
               'independent header splitter. Held = held on the messages reported; not a proof for all messages.')
@@ -112,20 +112,47 @@ VPOOL = [b'a', b'b', b'Z', b'0', b'9', b' ', b' ', b'\t', b':', b'=', b'?', b'<'
          b'@', b'.', b'\\', b'[', b']', b'-', b'_', b'/', b'%', b'~', b'!', b'#', b'word', b'=?', b'?=',
          b'\xc3\xa9', b'\xe2\x82\xac', b'\xe6\x97\xa5\xe6\x9c\xac', b'\xf0\x9f\x98\x80', b'\xe9', b'\xff', b'\x80', b'\xa0']
 APOOL = [t for t in VPOOL if all(c < 128 for c in t)]
+# 8-bit content that *Python* treats as a line or field separator once the bytes are decoded to str
+# (str.splitlines: U+0085 U+2028 U+2029; str.split/strip/isspace: U+00A0 U+1680 U+2000..U+200A U+202F U+205F
+# U+3000; U+FEFF) and the latin-1 single bytes 0x85 / 0xA0.  To a mail message they are ordinary 8-bit content
+# (not ASCII white space); they are kept off the two ends of every value line all the same.
+USEP = ([c.encode('utf-8') for c in '\x85\u2028\u2029\xa0\u1680\u2000\u2001\u2002\u2003\u2004\u2005\u2006\u2007'
+         '\u2008\u2009\u200a\u202f\u205f\u3000\ufeff'] + [b'\x85', b'\xa0'])
+USEP_STRIP = sorted(USEP, key=len, reverse=True)
+UPOOL = VPOOL + USEP + [c.encode('utf-8') for c in '\x85\u2028\u2029'] * 3
+
+
+def strip_usep(out):
+    changed = True
+    while changed:
+        changed = False
+        out2 = out.strip(b' \t')
+        for t in USEP_STRIP:
+            if out2.startswith(t):
+                out2 = out2[len(t):]
+            if out2.endswith(t):
+                out2 = out2[:-len(t)]
+        if out2 != out:
+            out, changed = out2, True
+    return out
+
+
+def has_usep(line):
+    return any(t in line for t in USEP)
 
 
 def gen_line(rnd, maxlen, ascii_only):
     """A non-blank value line without leading/trailing white space, 1..maxlen bytes."""
     maxlen = max(1, maxlen)
     target = maxlen if rnd.random() < 0.12 else rnd.randrange(1, maxlen + 1)
-    pool = APOOL if ascii_only else VPOOL
+    pool = APOOL if ascii_only is True else UPOOL if ascii_only == 'usep' else VPOOL
     out = b''
     while len(out) < target:
         t = rnd.choice(pool)
         if len(out) + len(t) > target:
             t = b'x'
         out += t
-    out = out.strip(b' \t')
+    out = strip_usep(out) if ascii_only == 'usep' else out.strip(b' \t')
     if not out:
         out = b'x'
     if len(out) < target and rnd.random() < 0.5:       # stripping shortened it: pad back to the target
@@ -148,7 +175,8 @@ def gen_fields(rnd):
         else:
             name = bytes(rnd.choice(FTEXT) for _ in range(rnd.randrange(1, 30)))
         sep = b': ' if rnd.random() < 0.85 else b':'
-        ascii_only = rnd.random() < 0.45
+        r = rnd.random()
+        ascii_only = True if r < 0.4 else 'usep' if r < 0.6 else False     # value alphabet of this field
         room = 78 - len(name) - len(sep)
         r = rnd.random()
         if r < 0.04:
@@ -220,6 +248,7 @@ def gen_wf(rnd):
         'dup': len({n.lower() for n, _, _ in fields}) < len(fields),
         'len78': any(len(n + s + l[0]) == 78 or any(len(x) == 78 for x in l[1:]) for n, s, l in fields),
         'nosp': any(s == b':' for _, s, _ in fields),
+        'usep': any(has_usep(x) for _, _, l in fields for x in l),
         'eol': {b'\r\n': 'CRLF', b'\n': 'LF'}.get(eolstyle, 'mixed'),
         'shape': shape,
     }
@@ -227,6 +256,7 @@ def gen_wf(rnd):
                                         ('nosp', s == b':'), ('first-line-78', len(n + s + l[0]) == 78),
                                         ('cont-line-78', any(len(x) == 78 for x in l[1:])),
                                         ('empty', l == [b'']),
+                                        ('unicode-separator', any(has_usep(x) for x in l)),
                                         ('inner-trailing-ws', any(x[-1:] in (b' ', b'\t') for x in l[:-1])))
                         if on) for n, s, l in fields]
     return {'kind': 'wf', 'raw': raw, 'fields': expect, 'body': body, 'feats': feats, 'per_field': per_field,
@@ -251,7 +281,8 @@ def body_class(body):
 ARB_TOK = [b'\r', b'\n', b'\r\n', b'\r\n', b':', b': ', b' ', b'\t', b'a', b'X-H', b'\xff', b'\x00', b'From ', b'--',
            b'Content-Type: multipart/mixed; boundary=b\r\n', b'Content-Type: message/rfc822\r\n', b'--b\r\n',
            b'--b--\r\n', b'Content-Transfer-Encoding: base64\r\n', b'=?utf-8?q?', b'?=', b'\x0b', b'\x0c', b'\x85',
-           b'\x1c', b'Subject', b'\r\n \r\n', b'\n\t\n', b'"', b'<', b'>', b'@', b',', b';', b'(', b'\\']
+           b'\x1c', b'\x1d', b'\x1e', b'\x1f', b'\xc2\x85', b'\xe2\x80\xa8', b'\xe2\x80\xa9', b'\xc2\xa0',
+           b'\xe3\x80\x80', b'\xef\xbb\xbf', b'\xa0', b'Subject', b'\r\n \r\n', b'\n\t\n', b'"', b'<', b'>', b'@', b',', b';', b'(', b'\\']
 LONGVAL = [lambda rnd, n: b'v' * n,
            lambda rnd, n: b' '.join(b'w' * rnd.randrange(1, 12) for _ in range(n // 6 + 1)),
            lambda rnd, n: b'\xe9' * n,
@@ -446,7 +477,12 @@ def run_wf(case, R):
     if feats['folded'] or feats['8bit'] or set(bc) & {'leading-blank', 'dot-line', 'nul', 'lone-cr'}:
         R.nontrivial(raw)
     R.observe('message-shape', (len(want_fields), feats['folded'], feats['8bit'], feats['dup'], feats['len78'],
-                                feats['nosp'], feats['eol'], feats['shape'], tuple(bc)))
+                                feats['nosp'], feats['eol'], feats['shape'], tuple(bc), feats.get('usep')))
+    for x in USEP:
+        if any(x in f[1] for f in want_fields):
+            R.observe('unicode-separator-in-judged-value', x)
+    if feats.get('usep'):
+        R.count('wf-messages-with-unicode-separator-in-a-value')
     for pf in case['per_field']:
         R.observe('field-shape', tuple(pf))
 
@@ -482,13 +518,15 @@ def run_wf(case, R):
     # index of the first input field that the output does not reproduce
     firstdiff = next((i for i, w in enumerate(want_fields) if i >= len(got) or got[i] != w), None)
     attributed = firstdiff is not None and firstdiff in trig
+    usuf = ('/unicode-separator-in-value' if firstdiff is not None and firstdiff < len(case['per_field'])
+            and 'unicode-separator' in case['per_field'][firstdiff] else '')
     if probs or rest != b'' or b'\r' in loose or b'\n' in loose:
-        viol(TRIGGER + '/header-changed' if attributed else 'flatten/header-block-not-crlf-lines',
+        viol(TRIGGER + '/header-changed' if attributed else 'flatten/header-block-not-crlf-lines' + usuf,
              'flattened header block is not CRLF lines + one blank line (%s)'
              % (probs or 'bare CR/LF or data after the blank line'), got_header=h, first_differing_field=firstdiff)
     elif got != want_fields:
         if [g[0] for g in got] != [w[0] for w in want_fields]:
-            viol(TRIGGER + '/header-changed' if attributed else 'flatten/header-names-or-order-differ',
+            viol(TRIGGER + '/header-changed' if attributed else 'flatten/header-names-or-order-differ' + usuf,
                  'header names / order changed', got=got, want=want_fields, got_header=h,
                  first_differing_field=firstdiff)
         else:
@@ -548,7 +586,9 @@ def run_wf(case, R):
             f1, f4 = split_header_block(h)[0], split_header_block(h4)[0]
             d = next((i for i in range(max(len(f1), len(f4))) if i >= len(f1) or i >= len(f4) or f1[i] != f4[i]), None)
             viol(TRIGGER + '/reparse-not-a-fixed-point' if trig and (d in trig or not header_ok) else
-                 'reparse/not-a-fixed-point/' + ('body' if b4 != b else 'headers'),
+                 'reparse/not-a-fixed-point/' + ('body' if b4 != b else 'headers') +
+                 ('/unicode-separator-in-value' if d is not None and d < len(case['per_field'])
+                  and 'unicode-separator' in case['per_field'][d] else ''),
                  're-parsing the flattened output gives a different result (%s)' % ('body' if b4 != b else 'headers'),
                  got=(h4, b4), want=(h, b), first_differing_field=d)
     except Exception as exc:
